@@ -17,7 +17,37 @@ static APPROACH: std::sync::atomic::AtomicUsize = std::sync::atomic::AtomicUsize
 /// Drive an exchange up to the body state with the given response head. The way the receive state is
 /// reached rotates: request method and version, a request body, an Expect handshake whose 100 arrives late.
 pub fn recv_body(api: &str, head: &[u8]) -> Option<Rut> {
+    // a panic of the harness's own expectations on the way to the body state (e.g. the head was not accepted)
+    // must not crash the run: it is reported by the callers as "body state not reached"
+    match guarded(|| recv_body_inner(api, head)) {
+        Some(r) => r,
+        None => None,
+    }
+}
+
+fn recv_body_inner(api: &str, head: &[u8]) -> Option<Rut> {
     let v = APPROACH.fetch_add(1, std::sync::atomic::Ordering::Relaxed);
+    if head.starts_with(b"HTTP/1.1 407") {
+        // a proxy refusing a CONNECT: only 2xx replies to CONNECT are without body
+        let f = Flow::new(Request::builder().method("CONNECT").uri("http://h.test:443/").body(()).unwrap()).unwrap();
+        let mut f = crate::fx::to_recv_response(f).expect("harness: reach RecvResponse");
+        let (n, r) = f.try_response(head).unwrap();
+        assert!(r.is_some() && n == head.len(), "harness: head not accepted");
+        return match f.proceed().unwrap() {
+            RecvResponseResult::RecvBody(f) => Some(Rut::Flow(f)),
+            _ => None,
+        };
+    }
+    if api == "call" && v % 4 == 2 {
+        // an interim response other than 100 precedes the head on the same receiver
+        let mut c = crate::fx::call_recv_response(["GET", "POST"][(v / 4) % 2]);
+        let hints: &[u8] = b"HTTP/1.1 103 Early Hints\r\nLink: </style.css>; rel=preload\r\n\r\n";
+        let (n, r) = c.try_response(hints).unwrap().unwrap();
+        assert!(n == hints.len() && r.status() == 103, "harness: interim response");
+        let (n, _) = c.try_response(head).unwrap().unwrap();
+        assert!(n == head.len());
+        return c.into_body().unwrap().map(Rut::Call);
+    }
     if api == "flow" && v % 3 == 1 {
         let method = ["POST", "PUT", "DELETE", "OPTIONS", "PATCH"][(v / 3) % 5];
         let body_m = matches!(method, "POST" | "PUT" | "PATCH");
@@ -35,6 +65,11 @@ pub fn recv_body(api: &str, head: &[u8]) -> Option<Rut> {
             // the interim response arrives late and is skipped
             let (n, r) = f.try_response(b"HTTP/1.1 100 Continue\r\n\r\n").unwrap();
             assert!(n == 25 && r.is_none(), "harness: late 100 not skipped");
+        } else if (v / 3) % 2 == 0 {
+            // an interim response other than 100 is handed to the caller; the final head follows
+            let interim: &[u8] = b"HTTP/1.1 102 Processing\r\n\r\n";
+            let (n, r) = f.try_response(interim).unwrap();
+            assert!(n == interim.len() && r.is_some(), "harness: interim response");
         }
         let (n, r) = f.try_response(head).unwrap();
         assert!(r.is_some() && n == head.len(), "harness: head not accepted");
@@ -254,16 +289,27 @@ pub fn ev_read(t: &mut Tracer, r: &mut Rut, stream: &[u8], avail: usize, outl: u
     }
 }
 
-fn start_chunked(t: &mut Tracer, api: &str, c: &Coding, note: &str) -> Rut {
-    let r = recv_body(api, CHUNK_HEAD).expect("harness: chunked body state");
-    t.case(json!({"ev":"case","comp":"br","kind":"chunked","lay":lay_json(c),"N":limbs(0),"api":api,"note":note,"ready0":r.ready()}));
-    r
+fn start_chunked(t: &mut Tracer, api: &str, c: &Coding, note: &str) -> Option<Rut> {
+    match recv_body(api, CHUNK_HEAD) {
+        Some(r) => {
+            t.case(json!({"ev":"case","comp":"br","kind":"chunked","lay":lay_json(c),"N":limbs(0),"api":api,"note":note,"ready0":r.ready()}));
+            Some(r)
+        }
+        None => {
+            t.case(json!({"ev":"case","comp":"br","kind":"chunked","lay":lay_json(c),"N":limbs(0),"api":api,"note":note,"ready0":false}));
+            t.ev(json!({"ev":"stuck","during":"reaching the body state of a chunked response (no body offered)"}));
+            None
+        }
+    }
 }
 
 /// Deliver the stream with arrivals at `cuts` (ascending offsets), cycling through `outs`;
 /// `stop_plan`: 0 = off, 1 = on, 2 = toggle after every read.
 fn run_schedule(t: &mut Tracer, api: &str, c: &Coding, cuts: &[usize], outs: &[usize], stop_plan: u8, note: &str) {
-    let mut r = start_chunked(t, api, c, note);
+    let mut r = match start_chunked(t, api, c, note) {
+        Some(r) => r,
+        None => return,
+    };
     let mut st = ReadState { pos: 0, delivered: 0, stop: stop_plan == 1 };
     if st.stop {
         r.set_stop(true);
@@ -322,7 +368,7 @@ pub fn small_codings() -> Vec<Coding> {
     let mut v = vec![];
     let exts: [&[u8]; 2] = [b"", b";x"];
     let tail = b"5\r\nzz";
-    let trs: [&[&[u8]]; 3] = [&[], &[b"t:v"], &[b"t:v", b"u: "]];
+    let trs: [&[&[u8]]; 4] = [&[], &[b"t:v"], &[b"t:v", b"u: "], &[b"Expires: Wed, 21 Oct 2015 07:28:00 GMT", b"t:v"]];
     for n1 in [1usize, 2, 3] {
         for z in [0usize, 1] {
             for e in exts {
@@ -383,7 +429,11 @@ pub fn random_coding(rng: &mut StdRng) -> Coding {
         let zeros = rng.gen_range(0..3);
         chunks.push(ChunkSpec { data, zeros, upper: rng.gen_bool(0.5), ext });
     }
-    let trs_all: [&[u8]; 3] = [b"t:v", b"x-check: abc", b"u: "];
+    let trs_all: [&[u8]; 3] = if rng.gen_bool(0.4) {
+        [b"Expires: Wed, 21 Oct 2015 07:28:00 GMT", b"x-checksum-sha256: 9f86d081884c7d659a2feaa0c55ad015a3bf4f1b2b0b822cd15d6c15b0f00a08", b"u: "]
+    } else {
+        [b"t:v", b"x-check: abc", b"u: "]
+    };
     let ntr = rng.gen_range(0..3);
     let trs: Vec<&[u8]> = (0..ntr).map(|i| trs_all[i]).collect();
     let tails: [&[u8]; 3] = [b"5\r\nzz", b"HTTP/1.1 200 OK\r\n\r\n", b"0\r\n\r\n"];
@@ -414,7 +464,10 @@ fn replay_scripts(o: &Opts, t: &mut Tracer) -> (u64, u64) {
         let c = Coding { bytes, l, pay, payload };
         selfcheck_coding(&c);
         let api = if li % 2 == 0 { "flow" } else { "call" };
-        let mut r = start_chunked(t, api, &c, "model-script");
+        let mut r = match start_chunked(t, api, &c, "model-script") {
+            Some(r) => r,
+            None => continue,
+        };
         n += 1;
         let mut st = ReadState { pos: 0, delivered: 0, stop: s["stop0"].as_bool().unwrap() };
         if st.stop {
@@ -537,7 +590,10 @@ pub fn c07(o: &Opts, t: &mut Tracer) -> Value {
         }
         let total = c.bytes.len();
         let exact: Vec<usize> = c.pay.iter().map(|&(_, n)| n).collect();
-        let mut r = start_chunked(t, ["flow", "call"][ci % 2], c, "exact-then-zero");
+        let mut r = match start_chunked(t, ["flow", "call"][ci % 2], c, "exact-then-zero") {
+            Some(r) => r,
+            None => continue,
+        };
         let mut st = ReadState { pos: 0, delivered: 0, stop: ci % 3 == 0 };
         if st.stop {
             r.set_stop(true);
@@ -581,7 +637,8 @@ pub fn c07(o: &Opts, t: &mut Tracer) -> Value {
 
 fn c08_length(t: &mut Tracer, api: &str, n: u64, arrive: &[usize], outs: &[usize], body: &[u8], tail: &[u8]) {
     // the same length framing under different response versions / neighbouring header fields
-    let head = match ((n % 1000) as usize + arrive.len() + outs.len()) % 5 {
+    let head = match ((n % 1000) as usize + arrive.len() + outs.len()) % 6 {
+        5 => format!("HTTP/1.1 407 Proxy Authentication Required\r\nContent-Length: {}\r\nProxy-Authenticate: Basic\r\n\r\n", n),
         0 => format!("HTTP/1.0 200 OK\r\nContent-Length: {}\r\n\r\n", n),
         1 => format!("HTTP/1.0 200 OK\r\nTransfer-Encoding: chunked\r\nContent-Length: {}\r\n\r\n", n),
         2 => format!("HTTP/1.1 404 Not Found\r\nServer: x\r\ncontent-length: {}\r\nConnection: keep-alive\r\n\r\n", n),
@@ -592,6 +649,10 @@ fn c08_length(t: &mut Tracer, api: &str, n: u64, arrive: &[usize], outs: &[usize
         Some(r) => r,
         None => {
             // N = 0: the body state is skipped (C06); nothing to read
+            if n > 0 {
+                t.case(json!({"ev":"case","comp":"br","kind":"length","lay":{"L":0,"pay":[]},"N":limbs(n),"api":api,"ready0":false,"note":"body state not reached"}));
+                t.ev(json!({"ev":"stuck","during":"reaching the body state of a response with Content-Length > 0 (no body offered)"}));
+            }
             return;
         }
     };
@@ -642,7 +703,14 @@ fn c08_length(t: &mut Tracer, api: &str, n: u64, arrive: &[usize], outs: &[usize
 
 fn c08_close(t: &mut Tracer, api: &str, http10: bool, rng: &mut StdRng, body: &[u8]) {
     let head: &[u8] = if http10 { b"HTTP/1.0 200 OK\r\nServer: x\r\n\r\n" } else { b"HTTP/1.1 200 OK\r\n\r\n" };
-    let mut r = recv_body(api, head).expect("harness: close-delimited body state");
+    let mut r = match recv_body(api, head) {
+        Some(r) => r,
+        None => {
+            t.case(json!({"ev":"case","comp":"br","kind":"close","lay":{"L":0,"pay":[]},"N":limbs(0),"api":api,"ready0":false,"note":"body state not reached"}));
+            t.ev(json!({"ev":"stuck","during":"reaching the body state of a close-delimited response (no body offered)"}));
+            return;
+        }
+    };
     t.case(json!({"ev":"case","comp":"br","kind":"close","lay":{"L":0,"pay":[]},"N":limbs(0),"api":api,"ready0":r.ready()}));
     t.ev(json!({"ev":"note","ready0":r.ready()}));
     let mut st = ReadState { pos: 0, delivered: 0, stop: false };
@@ -723,7 +791,14 @@ pub fn c08(o: &Opts, t: &mut Tracer) -> Value {
         let big = payload(1 << 25, 88);
         for (n, api) in [((1u64 << 32) + 10, "flow"), ((1u64 << 32) - 1 + (1 << 25), "call")] {
             let head = format!("HTTP/1.1 200 OK\r\nContent-Length: {}\r\n\r\n", n);
-            let mut r = recv_body(api, head.as_bytes()).expect("harness: body state");
+            let mut r = match recv_body(api, head.as_bytes()) {
+                Some(r) => r,
+                None => {
+                    t.case(json!({"ev":"case","comp":"br","kind":"length","lay":{"L":0,"pay":[]},"N":limbs(n),"api":api,"ready0":false,"note":"body state not reached"}));
+                    t.ev(json!({"ev":"stuck","during":"reaching the body state of a response with Content-Length > 0 (no body offered)"}));
+                    continue;
+                }
+            };
             t.case(json!({"ev":"case","comp":"br","kind":"length","lay":{"L":0,"pay":[]},"N":limbs(n),"api":api,"ready0":r.ready(),"note":"streamed >4GiB"}));
             t.sig(format!("stream/{}", n));
             t.class("r:streamed-4g");
